@@ -23,7 +23,7 @@ ASSUME = ["equality with a stand-alone optimiser run and tie handling are runtim
 
 
 def run(prog, rep):
-    rep.explanation = EXPL
+    rep.explanation = EXPL + ' C09.membership: the slicer obligations of C10 (mask operators, shared edges, positions, size filter) filed under this property; C09.dependence: the fit / re-fit protocol obligations of C14 filed under this property.'
     rep.assumptions = ASSUME
     rep.part(dims, prog, rep)
     rep.part(split, prog, rep)
